@@ -73,9 +73,25 @@ class DeferredPool:
     def __init__(self, rng):
         self.pending = []  # (future, fn, args)
         self.rng = rng
+        self.in_job = False
+        self.late_completion = rng.random() < 0.5  # half of the scenarios: jobs may also finish between two polls
 
     def submit(self, fn, *args):
-        f = Future()
+        pool = self
+
+        class PoolFuture(Future):
+            """a job of the real pool finishes at an arbitrary instant - also BETWEEN two polls of one maybe_clean pass: here, sometimes,
+            right after a done() that still answered False"""
+
+            def done(self):
+                r = Future.done(self)
+                if not r and not pool.in_job and pool.late_completion and pool.rng.random() < 0.3:
+                    for i, (f, _, _) in enumerate(pool.pending):
+                        if f is self:
+                            pool.run_one(i)
+                            break
+                return r
+        f = PoolFuture()
         self.pending.append((f, fn, args))
         return f
 
@@ -84,10 +100,13 @@ class DeferredPool:
             return False
         i = self.rng.randrange(len(self.pending)) if idx is None else idx
         f, fn, args = self.pending.pop(i)
+        self.in_job = True
         try:
             f.set_result(fn(*args))
         except BaseException as e:  # noqa
             f.set_exception(e)
+        finally:
+            self.in_job = False
         return True
 
 
